@@ -1272,7 +1272,8 @@ json.dump(out, sys.stdout)
                     n += 1
                     if n > 200:
                         break
-        self.check_shortcut_handles(ctx, own_img, rng)
+        if rng.random() < 0.3:
+            self.check_shortcut_handles(ctx, own_img, rng)
 
     def check_shortcut_handles(self, ctx, own_img, rng):
         """Words, senses and synsets obtained through the module-level functions belong to
